@@ -91,6 +91,38 @@ def inline_pool():
 
 
 @contextlib.contextmanager
+def record_label_assignments():
+    """records every `state.point_labels = ...` (the public label setter) as (id(state), labels) — independent
+    of how the library names its private helpers."""
+    from fast_ticc.containers import model_state as _ms
+    prop = _ms.ModelState.__dict__["point_labels"]
+    log = []
+
+    def fset(self, new_labels):
+        log.append((id(self), None if new_labels is None else [int(x) for x in new_labels]))
+        prop.fset(self, new_labels)
+    _ms.ModelState.point_labels = property(prop.fget, fset, prop.fdel, prop.__doc__)
+    try:
+        yield log
+    finally:
+        _ms.ModelState.point_labels = prop
+
+
+def moves_from_assignments(start_labels, assigned):
+    """[(donor, recipient, positions-in-donor-member-list, new labelling)] from successive labellings."""
+    out = []
+    prev = list(start_labels)
+    for lab in assigned:
+        changed = [i for i, (a, b) in enumerate(zip(prev, lab)) if a != b]
+        if changed:
+            donor, recipient = prev[changed[0]], lab[changed[0]]
+            members = [i for i, x in enumerate(prev) if x == donor]
+            out.append((donor, recipient, [members.index(i) for i in changed if prev[i] == donor], list(lab), len(members)))
+        prev = list(lab)
+    return out
+
+
+@contextlib.contextmanager
 def quiet():
     with contextlib.redirect_stdout(io.StringIO()):
         yield
